@@ -456,7 +456,8 @@ func runC14(c *run.Ctx) {
 				load = c14Load{Kind: "fail-" + f.kind, Text: strings.Join(parts, "\n"), Expect: "fail", Reader: -1}
 			case k < 7: // reader fault inside a valid document
 				text := strings.Join(c14ValidFragments(r, base, tag, 1+r.Intn(4)), "\n")
-				load = c14Load{Kind: "reader-fault", Text: text, Expect: "fail", Reader: r.Intn(len(text)), RKind: 0}
+				// the reader fails for good from the offset on (kind 3), or fails once and would deliver the rest if asked again (kind 0)
+				load = c14Load{Kind: "reader-fault", Text: text, Expect: "fail", Reader: r.Intn(len(text)), RKind: []int{3, 0}[r.Intn(2)]}
 				nontriv = true
 			default: // valid load
 				text := strings.Join(c14ValidFragments(r, base, tag, 1+r.Intn(3)), "\n")
@@ -485,6 +486,30 @@ func runC14(c *run.Ctx) {
 					c.Count("reader_fault_after_complete_definitions_accepted", 1) // a fault after the last byte needed is not an error
 				} else {
 					c.Count("expected_failure_was_accepted(left_to_C13)", 1)
+				}
+			}
+			if lerr == nil && load.Kind == "reader-fault" && load.RKind == 0 {
+				// The reader reported an error once and ggql went on reading: the call did not fail, so the statement says nothing
+				// about it, and which bytes ended up in the root is ggql's business. The shadow can not be kept in step with an
+				// unknown prefix: when the root is not what the whole document defines the history ends here (counted, not judged).
+				probe, perr := loadSDL(sdl)
+				for _, gl := range good {
+					if perr == nil {
+						perr = gl.apply(probe)
+					}
+				}
+				if perr == nil {
+					perr = load.apply(probe)
+				}
+				whole := false
+				if perr == nil {
+					a, e1 := observe(root)
+					b, e2 := observe(probe)
+					whole = e1 == nil && e2 == nil && vecDiff(a, b) == ""
+				}
+				if !whole {
+					c.Count("transient_reader_error_not_reported_and_document_not_loaded_whole(outside_the_statement)", 1)
+					break
 				}
 			}
 			if lerr == nil {
